@@ -182,8 +182,12 @@ impl Progress {
         }
 
         // The rejection must be stale if "rejected" does not match next - 1.
+        // A rejection of an index the peer has acknowledged is stale as well (it was overtaken
+        // by the acknowledgement); it must not release a probe that is still in flight.
         // Do not consider it stale if it is a request snapshot message.
-        if (self.next_idx == 0 || self.next_idx - 1 != rejected)
+        if (self.next_idx == 0
+            || self.next_idx - 1 != rejected
+            || (self.paused && rejected <= self.matched))
             && request_snapshot == INVALID_INDEX
         {
             return false;
